@@ -280,3 +280,7 @@ impl AuthenticationBuiltin {
       .map_err(|e| security_error(&format!("Failed to generate random bytes: {}", e)))
   }
 }
+
+#[cfg(rustdds_verif)]
+#[path = "/verif/harness/incrate/access/authentication_builtin.rs"]
+mod verif_access;
